@@ -1,6 +1,7 @@
 import Adb.Model.Engine
 import Adb.Spec.Verdict
 import Adb.Model.Parse
+import Adb.Model.Cosmetic
 /- Parsing of the line protocol's rule / request / store dumps. -/
 open Adb Adb.Net
 
@@ -104,6 +105,23 @@ def showRule (r : Rule) : String :=
     | .anyOf ss => "A" ++ ",".intercalate (ss.map hex)
   ";".intercalate [toString r.mask, fp, optHex r.hostname, showOptHashes r.domains, showOptHashes r.notDomains,
     showOptHash r.domainsUnion, showOptHash r.notDomainsUnion, optHex r.modifier, optHex r.tag, toString r.id, "0"]
+
+/-- `entities;hostnames;notEntities;notHostnames;unhide;script;plain;hasAction;procJson;perm` -/
+def parseCRule (s : String) : Option Cosmetic.CRule :=
+  match s.splitOn ";" with
+  | [e, h, ne, nh, unhide, script, plain, act, pj, perm] => do
+    let e ← optNatList e
+    let h ← optNatList h
+    let ne ← optNatList ne
+    let nh ← optNatList nh
+    let plain ← unoptHex plain
+    let pj ← unhex pj
+    let perm ← perm.toNat?
+    pure { entities := e, hostnames := h, notEntities := ne, notHostnames := nh, unhide := unhide == "1",
+           scriptInject := script == "1", plain, hasAction := act == "1", procJson := pj, permission := perm }
+  | _ => none
+
+def showStrSet (l : List Str) : String := ",".intercalate ((l.map hex).toArray.qsort (· < ·)).toList
 
 def showBool (b : Bool) : String := if b then "1" else "0"
 
